@@ -234,7 +234,7 @@ var tFees2 = Template{Name: "fees2", Consumer: "C1", Service: "a", Providers: []
 func scFees(ps ParamSet, wrong bool, depth, blocks, msgs int) *Scenario {
 	o := AlphaOpts{RespKinds: []string{"ok"},
 		Withdraw: []string{"O1:", "O1:P1", "O1:P2", "O2:", "O2:P3", "O2:Pp"},
-		SetW:     []string{"O1:W1", "O1:O1", "O2:W1"},
+		SetW:     []string{"O1:W1", "O1:O1", "O2:W1", "O1:REQ", "O2:DEP"}, // also the module's own escrow and deposit accounts
 		BindOps:  []Action{actBind("ab", "P1", "O1", 10, "p2", 1), actBind("a", "P4", "O1", 10, "p2", 1)}}
 	if wrong {
 		o.Withdraw = append(o.Withdraw, "O2:P1", "XX:", "XX:P1")
@@ -266,6 +266,7 @@ var (
 	tModCap  = Template{Name: "modcap", Consumer: "C1", Service: "a", Providers: []string{"P1", "P2"}, Cap: 1, Timeout: 1, Repeated: true, Freq: 1, Total: 2, Module: ModOther, Threshold: 2}
 	tPoorOne = Template{Name: "poorone", Consumer: "C2", Service: "a", Providers: []string{"P1", "P2"}, Cap: 5, Timeout: 1}
 	tModHalf = Template{Name: "modhalf", Consumer: "C2", Service: "a", Providers: []string{"P1", "P2"}, Cap: 5, Timeout: 1, Repeated: true, Freq: 1, Total: 2, Module: ModHalf, Threshold: 1}
+	tModDup  = Template{Name: "moddup", Consumer: "C2", Service: "a", Providers: []string{"P2"}, Cap: 5, Timeout: 1, Module: ModOther, Threshold: 1, SameTxAs: "mod1"}
 	tRep1    = Template{Name: "rep1", Consumer: "C1", Service: "a", Providers: []string{"P2"}, Cap: 5, Timeout: 1, Repeated: true, Freq: 1, Total: 1}
 	tF3      = Template{Name: "f3", Consumer: "C1", Service: "a", Providers: []string{"P2"}, Cap: 5, Timeout: 1, Repeated: true, Freq: 3, Total: -1}
 	tOneTot  = Template{Name: "onetot", Consumer: "C1", Service: "a", Providers: []string{"P2"}, Cap: 5, Timeout: 1, Repeated: false, Freq: 0, Total: 3}
@@ -353,7 +354,12 @@ func scNames(ps ParamSet, depth, blocks, msgs int) *Scenario {
 
 var MSP = addr20("msprovider")
 
-func init() { addrNames["MSP"] = MSP }
+func init() {
+	addrNames["MSP"] = MSP
+	// the module's own accounts, as targets of a withdrawal address
+	addrNames["REQ"] = sdk.AccAddress(reqAcc)
+	addrNames["DEP"] = sdk.AccAddress(depAcc)
+}
 
 var tMsvc = Template{Name: "callms", Consumer: "C1", Service: "ms", Providers: []string{"MSP"}, Cap: 5, Timeout: 1}
 var tMsvcSuper = Template{Name: "callmssuper", Consumer: "C1", Service: "ms", Providers: []string{"MSP"}, Cap: 5, Timeout: 1, Super: true}
@@ -446,6 +452,21 @@ func scHuge(ps ParamSet, depth, blocks, msgs int) *Scenario {
 		Depth: depth, MaxBlocks: blocks, MaxMsgs: msgs,
 	}
 	return sc
+}
+
+// scHugeDeposits: deposits and top-ups of 2^127 (the largest a single message may carry) that add up beyond 128 bits.
+func scHugeDeposits(ps ParamSet, depth, blocks, msgs int) *Scenario {
+	const d127 = "170141183460469231731687303715884105728" // 2^127
+	return &Scenario{
+		Name: "S-BIND(huge deposits)", Params: ps,
+		Funds: []Funding{{O1, -40}, {C1, 60}}, Extra: allAccounts,
+		Setup:     []Action{actDefine("a", "AU")},
+		Templates: []Template{tSlash},
+		Alpha: lifeAlpha(AlphaOpts{RespKinds: []string{"bad"}, BindOps: []Action{
+			actBindBig("a", "P1", "O1", d127, "1", 1), actBind("a", "P1", "O1", 10, "p1", 1),
+			actUpdateBig("a", "P1", "O1", d127), actDisable("a", "P1", "O1"), actEnableBig("a", "P1", "O1", d127), actRefund("a", "P1", "O1")}}),
+		Depth: depth, MaxBlocks: blocks, MaxMsgs: msgs,
+	}
 }
 
 // scTwoServices: provider P1 serves two services with different pricing.
